@@ -11,6 +11,23 @@ COMMON_NOTE = ("Trusted: Coq 8.16.1 kernel (vm_compute, no native_compute), harn
                "Print Assumptions output is copied into the evidence. ")
 
 CHECKS = {
+    "C01": dict(
+        text="Executable Coq model of ComposeInfo serialize/deserialize (header, compose, release, base product, variant forest "
+             "flattened to the uid-keyed mapping with per-variant child id lists, 14 path categories restricted to the variant's "
+             "arches, layered-product releases), driven by the regenerated validator tables. Proved: C01_header_roundtrip, "
+             "C01_compose_roundtrip (incl. the 'final only next to a label' normalisation). The forest-level statement is decided "
+             "by the roundtrip_ci correspondence: every generated description is written, read and written again by the real "
+             "library and by the model, the text is compared byte for byte and an implementation-side oracle compares every "
+             "documented field, the parent/child structure and all paths with the documented normalisations.",
+        note="Partial: load_ci (dump_ci x) = Ok (norm x) over whole forests is not yet a Coq theorem; header and compose section are.",
+        design="DESIGN.md section 6 C01"),
+    "C02": dict(
+        text="Coq theorems C02_image_roundtrip / C02_image_roundtrip_fields (every image the library agrees to write is read back "
+             "with all fifteen attributes unchanged; the proof runs the regenerated Image validators symbolically), "
+             "C02_compose_roundtrip. Manifest level (cell placement, no image gained or lost, byte-identical second write): the "
+             "roundtrip_images correspondence + implementation-side oracle over manifests built by add histories.",
+        note="Partial: the whole-manifest statement (load (dump m) = sort_cells m for m reachable by add) is not yet a Coq theorem.",
+        design="DESIGN.md section 6 C02"),
     "C03": dict(
         text="Coq theorems C03_{rpms,modules,extra}_roundtrip: for every normal compose section and ANY payload mapping (hence "
              "every mapping built by add histories, C03_rpms_built_by_add), load (dump x) returns exactly the compose section "
